@@ -46,7 +46,7 @@ def main():
                 "evidence_file": f"/verif/evidence/{pid}.json",
                 "replay_cmd_template": f"./check {pid} --replay {{path}}",
                 "engine": "mc",
-                "level_claimed": {"category": mod.LEVEL, "text": text, "design_ref": f"DESIGN.md section 4, {pid}"},
+                "level_claimed": {"category": mod.LEVEL, "text": text, "design_ref": f"DESIGN.md section 4, {pid} (plan) and section 10 (as built: 10.4-10.10 list what each wave of seeded changes added)"},
                 "level_note": note,
                 "technique": tech,
             }
@@ -66,12 +66,12 @@ def main():
                 "name": "mc",
                 "path": "/verif/mc",
                 "serves_properties": [c["property_id"] for c in checks],
-                "kind_free_text": "hand-written stateless explicit-state explorer for Python: program/choice-list enumeration with deviation bounding and state pruning, virtual asyncio loop, run-time seams, reference oracles and trace monitors; runs the real implementation on every explored execution",
+                "kind_free_text": "hand-written stateless explicit-state explorer for Python: program/choice-list enumeration with deviation bounding and state pruning, virtual asyncio loop (every completion order of suspended node bodies / async processors), baton and preemption-bounded schedulers for real threads (sys.setprofile / sys.settrace scheduling points), run-time seams, fault / crash / corruption menus, reference oracles and trace monitors; runs the real implementation on every explored execution (traces_validated_against_impl = executions)",
             }
         ],
         "checks": checks,
         "not_applicable": na,
-        "notes": "All checks: cwd /verif, /venv/bin/python, PYTHONPATH=/repo/src:/verif, PYTHONHASHSEED=0 (set by ./check). Exit 0 held / 1 VIOLATION / 2 harness error.",
+        "notes": "All checks: cwd /verif, /venv/bin/python, PYTHONPATH=/repo/src:/verif, PYTHONHASHSEED=0 (set by ./check). Exit 0 held / 1 VIOLATION / 2 harness error (never a verdict). Genuine defects: /verif/known_findings.json (2 open -> KNOWN-FINDING lines for C08 and C19; 19 fixed, each a 'fix:' commit in /repo). Detection: /verif/seeded/RESULTS.md (every kept seeded change vs the quick check of its property). All twenty quick checks together take about 4 minutes on 16 idle cores; thorough tiers from under a minute to about an hour (C07) and two hours (C01).",
     }
     import jsonschema
 
